@@ -46,6 +46,14 @@ def thorough(chk):
     return chk.tier == "thorough"
 
 
+THOROUGH_SCALE = 4
+
+
+def cnt(chk, quick, thorough_):
+    """number of generated items: the thorough tier multiplies its base count"""
+    return quick if chk.tier != "thorough" else thorough_ * THOROUGH_SCALE
+
+
 def one_op_closed(props, **kw):
     return list(gen.enum_formulas(1, props, [], **kw))
 
@@ -72,7 +80,7 @@ def small_enough(net, k, limit=15):
 # ------------------------------------------------------------------ C01
 def gen_C01(chk):
     rng = chk.rng
-    ws = worlds(chk, n_random=(40 if thorough(chk) else 12))
+    ws = worlds(chk, n_random=cnt(chk, 12, 40))
     for nm, net in ws:
         props = net_props(net)
         # every closed formula with one operator, in batches (mode: sanitised)
@@ -83,7 +91,7 @@ def gen_C01(chk):
             k = max(gen.quant_depth(f) for f in batch)
             chk.add_eval(net, k, "s", batch, tag="exh1", netname=nm)
         # random deeper formulae; k in depth..depth+2; sanitised, dirty and tree entry points
-        nrand = 60 if thorough(chk) else 16
+        nrand = cnt(chk, 16, 60)
         for j in range(nrand):
             f = gen.random_formula(rng, rng.randint(2, 9), props, max_vars=(3 if len(props) <= 2 else 2))
             d = gen.quant_depth(f)
@@ -93,7 +101,7 @@ def gen_C01(chk):
             mode = rng.choice(["s", "s", "", "ts", "t"])
             chk.add_eval(net, k, mode, [f], tag="rnd", netname=nm)
         # formulae whose sub-formulae repeat up to renaming, with one and with two variables
-        for j in range(8 if thorough(chk) else 3):
+        for j in range(cnt(chk, 3, 8)):
             f = swapped_batch(rng, props, False)[0]
             chk.add_eval(net, 2, "s", [f], tag="swapped", netname=nm)
             fs = nested_batch(rng, props, False)
@@ -135,7 +143,7 @@ def readme_triples(body, x, label):
 
 def gen_C02(chk):
     rng = chk.rng
-    ws = worlds(chk, n_random=(30 if thorough(chk) else 8))
+    ws = worlds(chk, n_random=cnt(chk, 8, 30))
     for nm, net in ws:
         props = net_props(net)
         labels = ["d", "e2", "p"]
@@ -144,20 +152,20 @@ def gen_C02(chk):
         pool = [f for f in pool if any(gen.labels_of(f))]
         if len(pool) > 60 and not thorough(chk):
             pool = rng.sample(pool, 60)
-        for rep in range(2 if thorough(chk) else 1):
+        for rep in range(cnt(chk, 1, 2)):
             ctx = [(l, ctx_spec(rng)) for l in labels]
             for batch in chunks(pool, 20):
                 k = max(gen.quant_depth(f) for f in batch)
                 chk.add_eval(net, k, "es", batch, ctx=ctx, tag="ext1", netname=nm)
         # random extended formulae (nested and repeated domains, bodies with and without x)
-        for j in range(50 if thorough(chk) else 14):
+        for j in range(cnt(chk, 14, 50)):
             f = gen.random_formula(rng, rng.randint(2, 8), props, max_vars=(3 if len(props) <= 2 else 2),
                                    wilds=("p", "d"), doms=("d", "e2"), w_hybrid=0.5)
             k = gen.quant_depth(f)
             ctx = [(l, ctx_spec(rng)) for l in labels]
             chk.add_eval(net, k, rng.choice(["es", "es", "e"]), [f], ctx=ctx, tag="extrnd", netname=nm)
         # README equivalences for arbitrary bodies, evaluated through the API
-        for j in range(20 if thorough(chk) else 6):
+        for j in range(cnt(chk, 6, 20)):
             body = gen.random_formula(rng, rng.randint(0, 4), props, scope=["x"], max_vars=2, wilds=("p",))
             ctx = [(l, ctx_spec(rng)) for l in labels]
             for a, b in readme_triples(body, "x", "d"):
@@ -186,7 +194,7 @@ def judge_pairs(chk):
 def gen_C03(chk):
     rng = chk.rng
     names = gen.CONSTRAINED + ["N09", "N10"]
-    ws = worlds(chk, quick_names=names, n_random=(30 if thorough(chk) else 8))
+    ws = worlds(chk, quick_names=names, n_random=cnt(chk, 8, 30))
     for nm, net in ws:
         props = net_props(net)
         pool = one_op_closed(props)
@@ -206,7 +214,7 @@ def gen_C03(chk):
                   ("B", "EU", p0, core2), ("H", "Exists", "y", None, core), ("B", "AU", gen.T("1"), core)]
             for spec in ["e", "k%d.1.2" % rng.randint(1, 999), "R%d.1.2" % rng.randint(1, 999)]:
                 chk.add_eval(net, 2, "e", fs, ctx=[("d", spec)], tag="emptydom", netname=nm)
-        for j in range(40 if thorough(chk) else 12):
+        for j in range(cnt(chk, 12, 40)):
             ext = rng.random() < 0.4
             f = gen.random_formula(rng, rng.randint(2, 8), props, max_vars=2,
                                    wilds=(("p",) if ext else ()), doms=(("d",) if ext else ()))
@@ -351,10 +359,10 @@ def swapped_batch(rng, props, ext):
 def gen_C04(chk):
     rng = chk.rng
     ws = worlds(chk, quick_names=["N02", "N05", "N06", "N07", "N09", "N16", "N21", "N22"],
-                n_random=(20 if thorough(chk) else 5))
+                n_random=cnt(chk, 5, 20))
     for nm, net in ws:
         props = net_props(net)
-        for j in range(36 if thorough(chk) else 12):
+        for j in range(cnt(chk, 12, 36)):
             ext = rng.random() < 0.6
             fs = [planted_batch, nested_batch, swapped_batch][j % 3](rng, props, ext)
             if len(fs) < 1:
@@ -366,7 +374,7 @@ def gen_C04(chk):
             perms = list(itertools.permutations(range(len(fs))))
             rng.shuffle(perms)
             group = []
-            for perm in perms[: (6 if thorough(chk) else 3)]:
+            for perm in perms[: cnt(chk, 3, 6)]:
                 cid = chk.add_eval(net, k, mode + "3", [fs[i] for i in perm], ctx=ctx, tag="perm", netname=nm)
                 chk.cases[cid]["perm"] = perm
                 group.append(cid)
@@ -428,10 +436,10 @@ def replace_subtree(t, target, repl):
 
 def gen_C10(chk):
     rng = chk.rng
-    ws = worlds(chk, n_random=(20 if thorough(chk) else 5))
+    ws = worlds(chk, n_random=cnt(chk, 5, 20))
     for nm, net in ws:
         props = net_props(net)
-        for j in range(30 if thorough(chk) else 9):
+        for j in range(cnt(chk, 9, 30)):
             f = gen.random_formula(rng, rng.randint(3, 9), props, max_vars=2, w_hybrid=0.3)
             k = gen.quant_depth(f)
             closed = [s for s in gen.subtrees(f) if not gen.free_vars(s) and s[0] != "T" and s != f]
@@ -478,7 +486,7 @@ def gen_C10(chk):
 def gen_C11(chk):
     """fixed-point laws, dualities, monotonicity with arbitrary argument sets (wild-cards)"""
     rng = chk.rng
-    ws = worlds(chk, n_random=(20 if thorough(chk) else 6))
+    ws = worlds(chk, n_random=cnt(chk, 6, 20))
     S, Tt = gen.T("W", "s"), gen.T("W", "t")
 
     def U(o, a):
@@ -504,7 +512,7 @@ def gen_C11(chk):
     ]
     mono = ["EX", "AX", "EF", "AF", "EG", "AG"]
     for nm, net in ws:
-        for j in range(6 if thorough(chk) else 2):
+        for j in range(cnt(chk, 2, 6)):
             ctx = [("s", ctx_spec(rng)), ("t", ctx_spec(rng))]
             fs = []
             for a, b in laws:
@@ -544,7 +552,7 @@ def judge_laws(chk):
 # ------------------------------------------------------------------ C12
 def gen_C12(chk):
     rng = chk.rng
-    ws = worlds(chk, n_random=(20 if thorough(chk) else 6))
+    ws = worlds(chk, n_random=cnt(chk, 6, 20))
 
     def attr(x):
         return ("H", "Bind", x, None, ("U", "AG", ("U", "EF", gen.T("V", x))))
@@ -598,7 +606,7 @@ def gen_C12(chk):
                     chk.add_eval(net, kk, "es", fs, ctx=ctx, tag="pattern-shared", netname=nm)
         for a, b in contexts:
             ext = bool(gen.labels_of(a)[1])
-            for rep in range(2 if thorough(chk) else 1):
+            for rep in range(cnt(chk, 1, 2)):
                 ctx = [("d", ctx_spec(rng))] if ext else []
                 mode = ("e" if ext else "") + "s"
                 k = gen.quant_depth(a)
@@ -614,7 +622,7 @@ def gen_C12(chk):
 # ------------------------------------------------------------------ C13
 def gen_C13(chk):
     rng = chk.rng
-    ws = worlds(chk, n_random=(30 if thorough(chk) else 8))
+    ws = worlds(chk, n_random=cnt(chk, 8, 30))
     for nm, net in ws:
         props = net_props(net)
         at = gen.atoms(props, [])
@@ -627,7 +635,7 @@ def gen_C13(chk):
                     fs.append(("B", o, a, b))
         for batch in chunks(fs, 24):
             chk.add_eval(net, 0, "s", batch, tag="w1", netname=nm)
-        for j in range(40 if thorough(chk) else 10):
+        for j in range(cnt(chk, 10, 40)):
             a = gen.random_formula(rng, rng.randint(0, 3), props, max_vars=1)
             b = gen.random_formula(rng, rng.randint(0, 3), props, max_vars=1)
             k = max(gen.quant_depth(a), gen.quant_depth(b))
@@ -645,10 +653,10 @@ def gen_C13(chk):
 # ------------------------------------------------------------------ C15
 def gen_C15(chk):
     rng = chk.rng
-    ws = worlds(chk, quick_names=gen.SMALL + ["N05"], n_random=(10 if thorough(chk) else 3), max_n=2)
+    ws = worlds(chk, quick_names=gen.SMALL + ["N05"], n_random=cnt(chk, 3, 10), max_n=2)
     for nm, net in ws:
         props = net_props(net)
-        for j in range(30 if thorough(chk) else 10):
+        for j in range(cnt(chk, 10, 30)):
             f = gen.random_formula(rng, rng.randint(1, 7), props, max_vars=2)
             d = gen.quant_depth(f)
             group = []
@@ -670,10 +678,10 @@ FRAGMENT_BIN = ["And", "Or", "Xor", "Imp", "Iff", "EU", "AW"]
 
 def gen_C18(chk):
     rng = chk.rng
-    ws = worlds(chk, n_random=(20 if thorough(chk) else 6))
+    ws = worlds(chk, n_random=cnt(chk, 6, 20))
     for nm, net in ws:
         props = net_props(net)
-        for j in range(40 if thorough(chk) else 12):
+        for j in range(cnt(chk, 12, 40)):
             f = gen.random_formula(rng, rng.randint(1, 8), props, max_vars=2, unops=FRAGMENT_UN, binops=FRAGMENT_BIN)
             k = gen.quant_depth(f)
             a = chk.add_eval(net, k, "u", [f], tag="unsafe", netname=nm)
@@ -683,7 +691,7 @@ def gen_C18(chk):
     for nm in gen.NO_STEADY:
         net = gen.CURATED[nm]
         props = net_props(net)
-        for j in range(60 if thorough(chk) else 20):
+        for j in range(cnt(chk, 20, 60)):
             f = gen.random_formula(rng, rng.randint(1, 8), props, max_vars=2)
             k = gen.quant_depth(f)
             a = chk.add_eval(net, k, "u", [f], tag="unsafe-nosteady", netname=nm)
@@ -767,7 +775,7 @@ def gen_bench_laws(chk):
     S, Tt = gen.T("W", "s"), gen.T("W", "t")
     for nm, net in bench_models(thorough(chk)):
         props = bench_props(net)
-        for j in range(4 if thorough(chk) else 2):
+        for j in range(cnt(chk, 2, 4)):
             a, b, c = rng.sample(props, 3)
             sdef = rng.choice(["%s & ~%s" % (a, b), "%s | (%s ^ %s)" % (a, b, c), "~%s" % a, "%s <=> %s" % (a, c)])
             tdef = rng.choice(["%s" % c, "%s & %s" % (b, c), "~(%s | %s)" % (a, c)])
@@ -807,7 +815,7 @@ def gen_bench_subst(chk):
     rng = chk.rng
     for nm, net in bench_models(thorough(chk)):
         props = bench_props(net)
-        for j in range(6 if thorough(chk) else 3):
+        for j in range(cnt(chk, 3, 6)):
             f = gen.random_formula(rng, rng.randint(3, 7), rng.sample(props, 3), max_vars=1, w_hybrid=0.25,
                                    unops=["Not", "EX", "AX", "EF", "AG"], binops=["And", "Or", "Imp", "EU"])
             closed = [x for x in gen.subtrees(f) if not gen.free_vars(x) and x[0] != "T" and x != f]
